@@ -91,6 +91,7 @@ def check_case(case):
     screen = S.build_screen(sc)
     policy = KPerSamplePlatePolicy(k)
     rng = np.random.default_rng(0)
+    keys = list(case.get("name_keys", []))
     plates = {int(p.plate_id): p for p in screen.plates}
     sample_of = {}
     unobs_ids = []
@@ -168,7 +169,8 @@ def check_case(case):
         chosen = got_ids[pick % len(got_ids)]
         if case["via_select"] and step % 2 == 0:
             sh = ChunkedScoresHolder(len(candidates))
-            for c in sorted(candidates):
+            order_ = sorted(candidates, key=lambda c_: (keys[(c_ + step) % len(keys)] if keys else 0, c_))  # not ascending by plate id
+            for c in order_:
                 sh.add_score(c, -5.0 if c == chosen else (-9.0 if c not in got_ids else float(c)))
             r = select_next_plate(scores=sh, screen=screen, policy=policy, batch_plate_ids=list(batch), rng=rng)
             require(r is not None and int(r.plate_id) == chosen, "select.picks_best_allowed", lambda: "select_next_plate returned %r, the best allowed plate is %d (allowed %r)" % (None if r is None else int(r.plate_id), chosen, got_ids))
